@@ -135,7 +135,7 @@ func TestVF_C05(t *testing.T) {
 		drawLibSeed(t, rt)
 		kp := drawKey(rt, false, true)
 		pk := kp.Pk
-		n := rapid.IntRange(1, len(pk.R)).Draw(rt, "n")
+		n := rapid.IntRange(0, len(pk.R)).Draw(rt, "n") // 0: the empty block
 		ms := make([]*big.Int, n)
 		exps := make([]*big.Int, n)
 		classes := make([]string, n)
@@ -190,6 +190,10 @@ func TestVF_C05(t *testing.T) {
 			rec.Case("randomized", true, fmt.Sprintf("r|%s|%v|%d", kp.Name, classes, i))
 			if !r.Verify(pk, ms) {
 				rec.Fail(rt, "randomized-signature-rejected", detail(map[string]any{"round": i}))
+				return
+			}
+			if !r.Verify(pk, ms) {
+				rec.Fail(rt, "randomized-signature-rejected:second-verification-of-the-same-object", detail(map[string]any{"round": i, "v_negative": r.V.Sign() < 0}))
 				return
 			}
 			if seenA[r.A.String()] {
@@ -262,6 +266,32 @@ func TestVF_C05(t *testing.T) {
 					s.E.Set(bounds.firstIn)
 				}
 			}), pk, ms) {
+			return
+		}
+		// --- after all of the above, the verdicts on the same objects are what they were (verification
+		// must not change the signature, the key, or anything shared between calls)
+		rec.Case("history/re-verification", true, fmt.Sprintf("hv|%s|%v", kp.Name, classes))
+		if !sig.Verify(pk, ms) || !cur.Verify(pk, ms) {
+			rec.Fail(rt, "honest-signature-rejected:after-earlier-verifications", detail(nil))
+			return
+		}
+		if !fk.Verify(pk, ms) {
+			rec.Fail(rt, "valid-signature-with-keyshareP-rejected:after-earlier-verifications", detail(nil))
+			return
+		}
+		if noP.Verify(pk, ms) || otherP.Verify(pk, ms) || addP.Verify(pk, ms) {
+			rec.Fail(rt, "altered-signature-accepted:keyshareP:after-earlier-verifications", detail(nil))
+			return
+		}
+		if n == 0 {
+			// the empty block: appended messages and key changes only
+			if !reject("message-appended", sig, pk, []*big.Int{bi(int64(rapid.IntRange(1, 1000).Draw(rt, "app0")))}) {
+				return
+			}
+			rec.Case("equivalent/zero-appended", true, fmt.Sprintf("z|%s|%v", kp.Name, classes))
+			if !sig.Verify(pk, []*big.Int{bi(0)}) {
+				rec.Fail(rt, "equivalent-block-rejected:zero-appended", detail(nil))
+			}
 			return
 		}
 		// other message blocks (different exponent vectors)
@@ -340,6 +370,9 @@ func TestVF_C05(t *testing.T) {
 		pk3 := *pk
 		pk3.Z = new(big.Int).Mul(pk.Z, pk.S)
 		pk3.Z.Mod(pk3.Z, pk.N)
-		reject("Z-changed", sig, &pk3, ms)
+		if !reject("Z-changed", sig, &pk3, ms) {
+			return
+		}
+		return
 	})
 }
